@@ -100,6 +100,22 @@ def not_ready():
         raise NotReadyError()
 
 
+def lazy_product(lhs, rhs):
+    # One factor has to become a number. The other may be an address whose base
+    # is still being worked out (the product is met while that very base is
+    # computed, as in '.link K + k*e - k*s'): it stays symbolic, so that the
+    # base can cancel out later.
+    try:
+        number, symbolic = wait(rhs), lhs
+    except DeferredCycle:
+        number, symbolic = wait(lhs), rhs
+    if isinstance(symbolic, LinearPolynomial):
+        return symbolic * number
+    if isinstance(symbolic, BaseDeferred):
+        return LinearPolynomial[int]({symbolic: number})
+    return symbolic * number
+
+
 class BaseDeferredMetaclass(type):
     def __getitem__(cls, typ):
         if not isinstance(typ, type):
@@ -192,7 +208,7 @@ class BaseDeferred(metaclass=BaseDeferredMetaclass):
 
     def __mul__(self, rhs):
         if self.typ is int:
-            return Deferred[self.typ](lambda: LinearPolynomial[self.typ]({self: wait(rhs)}))
+            return Deferred[self.typ](lambda: lazy_product(self, rhs))
         else:
             raise TypeError(f"Don't know how to multiply {self.typ.__name__}")
 
@@ -326,7 +342,7 @@ class LinearPolynomial(BaseDeferred):
             rhs = rhs.get_current_best_estimate()
         if isinstance(rhs, BaseDeferred):
             if self.coeffs:
-                return Deferred[int](lambda: wait(self) * wait(rhs))
+                return Deferred[int](lambda: lazy_product(self, rhs))
             else:
                 return rhs * self.constant_term
         return LinearPolynomial[int]({key: value * rhs for key, value in self.coeffs.items()}, self.constant_term * rhs)
